@@ -473,7 +473,12 @@ def main(argv=None):
                       'tenpy.tools.events.EventHandler', 'pickle', 'numpy.save/load', 'h5py + libhdf5',
                       'tmpfs files under /dev/shm'],
         'simulated_or_stubbed': ['queue.Queue', 'threading.Event', 'threading.Thread start/join/is_alive',
-                                 'all time-outs (virtual time)', 'tenpy logging (silenced)'],
+                                 'all time-outs (virtual time)',
+                                 'the module-level loggers of tools/thread.py and tools/cache.py (recording proxy: an '
+                                 'error report without an injected fault is a violation)',
+                                 'shutil.rmtree / os.remove / open / pickle / numpy.save,load / save_to_hdf5 / '
+                                 'load_from_hdf5 as seen from tools/cache.py (pass-through proxies that inject the '
+                                 'planned I/O faults)', 'other tenpy logging (silenced)'],
         'regression_replays_of_fixed_findings': regressions,
         'reported': reported,
         'harness_errors': [h['harness_error'][-500:] for h in harness_errors[:5]],
